@@ -131,13 +131,20 @@ class C16(Check):
     def one_subset(self, d, n, asm, prtxt, fmt, wl, mk, subset, clean, ctx):
         case = [fmt, wl, mk, list(subset)]
         ctx.cur = case
-        # --- no-clobber
+        # --- no-clobber, pre-existing files filled with a sentinel, and once more as empty files
+        self.no_clobber(d, f"{n}s", asm, prtxt, fmt, wl, subset, case, ctx, lambda name: SENTINEL + name.encode())
+        self.no_clobber(d, f"{n}z", asm, prtxt, fmt, wl, subset, case, ctx, lambda name: b"")
+        # --- clobber twins: the default, and --clobber given explicitly
+        for explicit in (None, True):
+            self.clobber_twin(d, f"{n}{'e' if explicit else 'd'}", asm, prtxt, fmt, wl, subset, clean, case, explicit, ctx)
+
+    def no_clobber(self, d, n, asm, prtxt, fmt, wl, subset, case, ctx, content):
         ctx.evaluations += 1
         if len(subset) > 1:
             ctx.nontrivial += 1
         outd = self.fresh_out(d, f"n{n}")
         for name in subset:
-            (outd / name).write_bytes(SENTINEL + name.encode())
+            (outd / name).write_bytes(content(name))
         rc, _o, err, _exc = cli.invoke_p2a(self.args(asm, prtxt, outd, fmt, wl, False))
         after = cli.dir_files(outd)
         log_text = b""
@@ -147,8 +154,8 @@ class C16(Check):
         if rc == 0:
             ctx.violation("no-clobber-run-succeeds", case, f"exit 0 with {list(subset)!r} pre-existing")
         for name in subset:
-            if after.get(name) != SENTINEL + name.encode():
-                ctx.violation("no-clobber-file-altered", case, f"{name} changed ({len(after.get(name, b''))} bytes)")
+            if after.get(name) != content(name):
+                ctx.violation("no-clobber-file-altered", case, f"{name} changed ({len(after.get(name, b''))} bytes, was {len(content(name))})")
                 break
         else:
             if rc != 0:
@@ -157,9 +164,6 @@ class C16(Check):
                     ctx.violation("no-clobber-error-names-no-colliding-file", case, f"stderr/log: {said[-300:]!r}")
         ctx.outcome(h64((case, rc, sorted(after))))
         cli.cleanup(outd)
-        # --- clobber twins: the default, and --clobber given explicitly
-        for explicit in (None, True):
-            self.clobber_twin(d, f"{n}{'e' if explicit else 'd'}", asm, prtxt, fmt, wl, subset, clean, case, explicit, ctx)
 
     def clobber_twin(self, d, n, asm, prtxt, fmt, wl, subset, clean, case, explicit, ctx):
         ctx.evaluations += 1
